@@ -234,6 +234,8 @@ func (cc *certCase) oracle(v vrun) (mustAccept, mustRefuse bool, failed []string
 				}
 				if folds { // a node ID is an exact string: another spelling is another node
 					fail("node-id-differs-only-by-case")
+				} else if v.Expected == "" { // the empty ID is an ID like any other: it must be named
+					fail("empty-node-id-not-named")
 				} else {
 					fail("node-id-not-named")
 				}
@@ -249,6 +251,12 @@ func (cc *certCase) oracle(v vrun) (mustAccept, mustRefuse bool, failed []string
 	mustRefuse = len(failed) > 0
 	mustAccept = !mustRefuse && !undetermined
 	return
+}
+
+// expected node IDs that name no node unless the certificate has exactly that otherName: the
+// empty string, blanks only, one of the certificate's DNS names, its subject common name
+func (cc *certCase) oddExpected() []string {
+	return []string{"", " ", "  ", "\t", cc.P.D, leafCN}
 }
 
 func (e *env) verifyTier(cases []*certCase, pinsPerMode int) {
@@ -276,8 +284,17 @@ func (e *env) verifyTier(cases []*certCase, pinsPerMode int) {
 		fv := foldVariants(cc.P.E)
 		rot++
 		add(1+rot%2, htRecv, fv[rot%len(fv)], pinNone)
+		// receptor-name mode with the empty expected ID (both roles), a blank-only ID, a DNS name
+		// of the certificate and its common name
+		odd := cc.oddExpected()
+		add(vtServer, htRecv, "", pinNone)
+		add(vtClient, htRecv, "", pinNone)
+		add(1+rot%2, htRecv, odd[1+rot%3], pinNone)
+		add(2-rot%2, htRecv, cc.P.D, pinNone)
+		add(1+rot%2, htRecv, leafCN, pinNone)
+		add(2-rot%2, htRecv, "", 1+rot%(nPins-1))
 		// a free run: any verify type, any host name type, some other expected name
-		exps := []string{cc.P.E, cc.P.O, "", cc.P.E + "x", cc.P.D, cc.P.DOther, cc.P.O2, fv[0]}
+		exps := []string{cc.P.E, cc.P.O, "", cc.P.E + "x", cc.P.D, cc.P.DOther, cc.P.O2, fv[0], " ", leafCN}
 		add([]int{0, 1, 2, 3, 1, 2}[r.Intn(6)], []int{0, 1, 2, 3, 1, 2, 2}[r.Intn(7)], exps[r.Intn(len(exps))], r.Intn(nPins))
 		var terms []string
 		for _, v := range runs {
@@ -392,11 +409,16 @@ func (e *env) clientTier(cases []*certCase, runsPer int) {
 		}
 		srv := &tls.Config{Certificates: []tls.Certificate{{Certificate: cc.Raw, PrivateKey: e.p.leafKey}}, MinVersion: tls.VersionTLS12}
 		var terms []string
-		for k := 0; k < runsPer; k++ {
+		odd := cc.oddExpected()
+		for k := 0; k < runsPer+2; k++ {
 			ht := []int{htRecv, htDNS, htRecv, htDNS, htDNS}[k%5]
 			exp := cc.P.E
 			if ht == htDNS {
 				exp = cc.P.D
+			}
+			special := k >= runsPer
+			if special {
+				ht = htRecv
 			}
 			switch r.Intn(8) {
 			case 0:
@@ -417,6 +439,12 @@ func (e *env) clientTier(cases []*certCase, runsPer int) {
 			if cc.P.Names == namExpected && k == 2 {
 				fv := foldVariants(cc.P.E)
 				exp, skip, pk = fv[r.Intn(len(fv))], false, pinNone // the other direction: the expected ID has the other spelling
+			}
+			if special { // receptor mode: the empty expected ID, then a blank / DNS name / common name
+				exp, skip, pk = "", false, pinNone
+				if k > runsPer {
+					exp = odd[1+r.Intn(len(odd)-1)]
+				}
 			}
 			v := vrun{vtServer, ht, exp, pk, cc.pins(pk, r)}
 			e.clientProfile("cli", skip, v.Pins, nil)
@@ -526,6 +554,49 @@ func (e *env) serverTier(cases []*certCase, runsPer int) {
 			}
 		}
 		e.cf.Add(fmt.Sprintf("TServer %s %s", cc.coqFacts(), CoqList(terms)), "tls server handshake: "+cc.Label)
+		// the client role in receptor-name mode: the profile's verifier followed by a name verifier
+		// for an arbitrary expected ID, installed the way conn.go listen installs it per connection
+		// (on the mesh the expected ID is always a live node's ID; here it is the empty ID, a blank,
+		// a DNS name, the common name, or the proper ID)
+		if cc.Kind == "product" {
+			odd := append(cc.oddExpected(), cc.P.E)
+			var lterms []string
+			for k, exp := range []string{"", odd[1+r.Intn(len(odd)-1)]} {
+				sp := sprofile{Require: true, CAs: true}
+				if k == 1 && r.Chance(30) {
+					sp.PinKind = pinSha256
+				}
+				sp.Pins = cc.pins(sp.PinKind, r)
+				srv := e.serverConfig(e.node, sp, e.srvCert, e.srvKey)
+				configured := srv.VerifyPeerCertificate
+				nameCheck := netceptor.ReceptorVerifyFunc(srv, [][]byte{}, exp, netceptor.ExpectedHostnameTypeReceptor, netceptor.VerifyClient, e.lg)
+				srv.VerifyPeerCertificate = func(raw [][]byte, chains [][]*x509.Certificate) error {
+					if err := configured(raw, chains); err != nil {
+						return err
+					}
+					return nameCheck(raw, chains)
+				}
+				crt := &tls.Certificate{Certificate: cc.Raw, PrivateKey: e.p.leafKey}
+				cli := &tls.Config{InsecureSkipVerify: true}
+				cli.GetClientCertificate = func(*tls.CertificateRequestInfo) (*tls.Certificate, error) { return crt, nil }
+				_, serr := handshake(cli, srv)
+				ok := serr == nil
+				lterms = append(lterms, fmt.Sprintf("(lr %s (mkAddr %s []) %s)", sp.coq(), hxp([]byte(exp)), CoqBool(ok)))
+				v := vrun{vtClient, htRecv, exp, sp.PinKind, sp.Pins}
+				rec := map[string]interface{}{"level": "tls-server-handshake-receptor-name", "cert": cc.Label, "run": v.String(), "impl_error": fmt.Sprint(serr)}
+				e.im.Hist(fmt.Sprintf("server-name-handshake:ok=%v", ok))
+				e.im.Count("server-name-hs "+cc.Label+" "+v.String(), true)
+				mustAccept, mustRefuse, failed := cc.oracle(v)
+				rec["failed_conditions"] = failed
+				if mustRefuse && ok {
+					e.im.Violate(fmt.Sprintf("TLS server handshake (receptor-name verifier) SUCCEEDS although %v (%s; %s)", failed, cc.Label, v), "server-handshake-accepts:"+failed[0], rec)
+				}
+				if mustAccept && !ok {
+					e.im.Violate(fmt.Sprintf("TLS server handshake (receptor-name verifier) fails although every condition holds: %v (%s; %s)", serr, cc.Label, v), "server-handshake-refuses-good", rec)
+				}
+			}
+			e.cf.Add(fmt.Sprintf("TListen %s %s", cc.coqFacts(), CoqList(lterms)), "tls server handshake, receptor-name verifier for the client role: "+cc.Label)
+		}
 	}
 	// the configuration syntax itself refuses pins that are not sha256/sha512 sized
 	for _, n := range []int{0, 20, 28, 31, 33, 48, 63, 65} {
@@ -544,7 +615,7 @@ func (e *env) serverTier(cases []*certCase, runsPer int) {
 
 func runC09(c *Ctx) {
 	im := NewImpl("C09", c.Seed, c.Tier)
-	im.Rule = "certificates from crypto/x509 over issuer{RootCAs CA, ClientCAs CA, unrelated CA, self-signed, via intermediate presented/missing} x window{valid, expired, not yet valid} x EKU{server, client, both, neither, absent} x names{expected, other, several, none, DNS-only, DNS-other, several-without, near-miss, bad-UTF8, case-fold = every spelling differing from the expected ID only by ASCII case or Unicode simple case folding k/U+212A s/U+017F, both directions} (node IDs and host names random per certificate), plus malformed presentations (no certificate, garbage, truncated, garbage second element); each shown to ReceptorVerifyFunc for both verify types x {receptor, DNS, DNS-empty} x rotating pin lists {none, sha256, sha512, sha224, sha384, miss, wrong length, match-then-wrong, wrong-then-match, miss-then-match, empty pin, match-then-miss} plus a free run (invalid types, other expected names); a sample goes through crypto/tls handshakes (client side via GetClientTLSConfig, server side via PrepareTLSServerConfig) and through DialContext/ListenAndAdvertise on a real mesh; non-trivial = a certificate was presented and parses; distinct by certificate parameters + run"
+	im.Rule = "certificates from crypto/x509 over issuer{RootCAs CA, ClientCAs CA, unrelated CA, self-signed, via intermediate presented/missing} x window{valid, expired, not yet valid} x EKU{server, client, both, neither, absent} x names{expected, other, several, none, DNS-only, DNS-other, several-without, near-miss, bad-UTF8, blank-ids = otherNames \"\" and \" \", case-fold = every spelling differing from the expected ID only by ASCII case or Unicode simple case folding k/U+212A s/U+017F, both directions} (node IDs and host names random per certificate), plus malformed presentations (no certificate, garbage, truncated, garbage second element); each shown to ReceptorVerifyFunc for both verify types x {receptor, DNS, DNS-empty} x rotating pin lists {none, sha256, sha512, sha224, sha384, miss, wrong length, match-then-wrong, wrong-then-match, miss-then-match, empty pin, match-then-miss} plus a free run (invalid types, other expected names); a sample goes through crypto/tls handshakes (client side via GetClientTLSConfig, server side via PrepareTLSServerConfig) and through DialContext/ListenAndAdvertise on a real mesh; non-trivial = a certificate was presented and parses; distinct by certificate parameters + run"
 	cf := &CaseFile{Dir: c.Out, Prop: "C09", Imports: []string{"Model.Tls"}, CaseType: "tls_case", CheckFn: "tls_check", PerShard: 60}
 	QuietLogs()
 	lg := logger.NewReceptorLogger("")
